@@ -11,6 +11,7 @@ UNITS = {
     'util': 'smart_quoter, push_checked, SplittedString accessors, split_spec lemmas, character classes',
     'phon': 'PhoneticSuggestion::{add_suffix_to_suggestions, suggest_only_phonetic, suggestion_with_dict, suggest, get_prev_selection}',
     'pmeth': 'PhoneticMethod under an adversarial environment (new, key, backspace, commit, update_engine)',
+    'data': 'Data::new: the bundled tables are a function of the data directory alone',
 }
 
 COMMON_TRUST = ('Trusted: Verus/Z3/rustc; the extractor/assembler (round-trip checked, item hashes in the evidence); std contracts '
@@ -19,11 +20,11 @@ COMMON_TRUST = ('Trusted: Verus/Z3/rustc; the extractor/assembler (round-trip ch
 
 PLAN = {
     'C01': {
-        'bounded': ['phonetic_api', 'fixed_api', 'fixed_rules', 'user_files'], 'static': ['context_glue'], 'kani': ['k_keycode_to_char'],
+        'bounded': ['phonetic_api', 'fixed_api', 'fixed_rules', 'user_files', 'suffix_forms'], 'static': ['context_glue'], 'kani': ['k_keycode_to_char'],
         'level': 'proof', 'safety': True,
-        'units': ['fixed_pkv_common', 'fixed_reph', 'fixed_session', 'layout', 'rank', 'util', 'phon', 'pmeth'],
+        'units': ['fixed_pkv_common', 'fixed_reph', 'fixed_session', 'layout', 'rank', 'util', 'phon', 'pmeth', 'data'],
         'technique': 'Verus built-in safety obligations (unwrap/index/slice/overflow/termination) on extracted real functions under data-structure invariants',
-        'claim': 'Every extracted riti function (both methods, Rank/Suggestion, layout, utility) is proved free of panics, failed unwraps, out-of-bounds or off-boundary slices, arithmetic overflow and non-termination for ALL inputs satisfying the stated invariants (ASCII buffer, memo transparency, in-range commit index), and every API operation is proved to re-establish those invariants; keys without a character are ignored.',
+        'claim': 'Every extracted riti function (both methods, Rank/Suggestion, layout, utility) is proved free of panics, failed unwraps, out-of-bounds or off-boundary slices, arithmetic overflow and non-termination for ALL inputs satisfying the stated invariants (ASCII buffer, memo transparency, in-range commit index), and every API operation is proved to re-establish those invariants; keys without a character are ignored; a memo entry is proved to hold the direct hits of its word only, so the suffix pass multiplies lists whose size does not depend on the history.',
         'note': COMMON_TRUST + 'Not decided: panics inside okkhor/regex/poriborton/emojicon, sort panic-freedom for non-total comparators, RefCell double borrow, time complexity beyond termination; T2 functions (split, internal_backspace_step, search_dictionary, include_from_dictionary, layout_get_value) only have assumed contracts here.',
     },
     'C02': {
@@ -43,12 +44,12 @@ PLAN = {
         'note': COMMON_TRUST + 'okkhor (avro) is an uninterpreted function; SplittedString::split itself is T2: assumed contract == split_spec, bounded conformance check.',
     },
     'C04': {
-        'bounded': ['layout_values'], 'kani': ['k_modifiers_plane'],
+        'bounded': ['layout_values', 'update_engine'], 'kani': ['k_modifiers_plane'],
         'level': 'proof',
         'units': ['layout', 'fixed_pkv_off', 'fixed_session'],
         'technique': 'Verus: get_char_for_key for all u16 codes vs riti.h-generated table; plane chosen by the AltGr bit only; frame/append postconditions of get_suggestion',
-        'claim': 'Proof over all 65536 key codes, all modifier bytes and both number-pad settings that the value handed to the composer is exactly the layout entry the riti.h key name designates (plane from the AltGr bit only, key pad only with the option on, empty/missing entry = nothing), that a key without a value changes no state, and that with all helpers off an idle context holds exactly that value afterwards.',
-        'note': COMMON_TRUST + 'layout_get_value(_numpad) (format!/closure) are T2: assumed contract over the abstract layout map, finite call-site conformance check; the transcription of riti.h macro names into entry names is hand-written (tools/gen_keytable.py).',
+        'claim': 'Proof over all 65536 key codes, all modifier bytes and both number-pad settings that the value handed to the composer is exactly the layout entry the riti.h key name designates (plane from the AltGr bit only, key pad only with the option on, empty/missing entry = nothing), that a key without a value changes no state, and that with all helpers off an idle context holds exactly that value afterwards; Layout::parse and FixedMethod::new are proved to hold, whatever the options are, the whole entry table of the configured layout file (load marker), and every event function leaves the layout untouched.',
+        'note': COMMON_TRUST + 'layout_get_value(_numpad) (format!/closure) are T2: assumed contract over the abstract layout map, finite call-site conformance check; the transcription of riti.h macro names into entry names is hand-written (tools/gen_keytable.py); Config::get_layout and serde_json::from_value are T3 (the file content is the environment\'s); the bounded check update_engine also flips the number-pad option on a live context.',
     },
     'C05': {
         'bounded': ['history_independence'], 'static': ['no_shared_state'],
@@ -67,12 +68,12 @@ PLAN = {
         'note': COMMON_TRUST + 'Equality with a new context is at the level of the abstract state (buffer, raw keys, waiting sign; memo transparent by C05).',
     },
     'C07': {
-        'bounded': ['phonetic_api'],
+        'bounded': ['phonetic_api', 'history_independence'],
         'level': 'proof',
         'units': ['rank', 'util', 'phon'],
         'technique': 'Verus: Rank::cmp == rank_cmp (class, number); assembly postcondition of suggest; push_checked duplicate-freedom at ranked-value level',
-        'claim': 'Proof that the comparator is the documented order, that candidate ranks are First(auto-correct, user entry first), Other(10*distance), Last(transliteration,2), Last(English,3), that the list handed to the sort is exactly that assembly with text-duplicates suppressed by push_checked, and that the result is the (assumed stable) sort of it.',
-        'note': COMMON_TRUST + 'Sortedness is conditional on std sort + the comparator being a total preorder on the elements present (emoji numbers 1..9 vs multiples of 10: data precondition); edit distance <= 25 (data precondition).',
+        'claim': 'Proof that the comparator is the documented order, that candidate ranks are First(auto-correct, user entry first), Other(10*distance), Last(transliteration,2), Last(English,3), that the list handed to the sort is exactly that assembly with text-duplicates suppressed by push_checked, and that the result is the (assumed stable) sort of it.  Statement clauses at spec level (lemma_c07_list over the sorted assembly): the auto-correct entry, when one exists, is first; direct and suffix-built dictionary words appear in non-decreasing rank number (10 x the distance recorded by the search, inherited by suffix-built forms); the transliteration, unless already present, follows every dictionary word; raw English is last; an emoji (numbers 1..9) never precedes a dictionary word of distance 0; no text occurs twice.',
+        'note': COMMON_TRUST + 'Sortedness rests on one axiom about std sort (stable, sorted w.r.t. the proved comparator key) + data preconditions: emoji numbers 1..9, distances <= 25; that the number recorded by the dictionary search IS the edit distance is T2 (include_from_dictionary), checked by the bounded list oracle in phonetic_api / history_independence (distance and dictionary membership recomputed).',
     },
     'C08': {
         'bounded': ['suffix_forms'],
@@ -83,11 +84,11 @@ PLAN = {
         'note': COMMON_TRUST + 'include_from_dictionary (regex) is T2: assumed contract ph_dict; ASCII byte/char bridge axioms for &s[a..b].',
     },
     'C09': {
-        'bounded': ['learn_recall'],
+        'bounded': ['learn_recall', 'update_engine'],
         'level': 'proof',
         'units': ['pmeth', 'phon'],
         'technique': 'Verus: functional postconditions of candidate_committed (store update + save attempt) and get_prev_selection (looked-up text, first index, derived entry) over String-keyed map views',
-        'claim': 'Commit side: committing the preselected candidate (or with suggestions off) leaves the store unchanged; otherwise exactly one entry is written (word part of the typed text -> word part, colon mode, of the committed candidate), all other entries untouched, and a save of the WHOLE new store to the selection file is attempted (marker predicate), independent of the save result.  Look-up side: get_prev_selection is proved to return the index of the first candidate whose text is wrapping punctuation + learned text of the word part, or -- when the word has no entry of its own -- + the learned text of a base joined (same three rules as C08) with the first known suffix, shortest first; a derived text is stored for the word part itself without the punctuation, nothing else changes, and that write is idempotent for later look-ups (lemma).  The preselected index returned by key and backspace events is proved to be this function of (text, configuration, data, user list, learned selections).',
+        'claim': 'Commit side: committing the preselected candidate (or with suggestions off) leaves the store unchanged; otherwise exactly one entry is written (word part of the typed text -> word part, colon mode, of the committed candidate), all other entries untouched, and a save of the WHOLE new store to the selection file is attempted (marker predicate), independent of the save result.  Look-up side: get_prev_selection is proved to return the index of the first candidate whose text is wrapping punctuation + learned text of the word part, or -- when the word has no entry of its own -- + the learned text of a base joined (same three rules as C08) with the first known suffix, shortest first; a derived text is stored for the word part itself without the punctuation, nothing else changes, and that write is idempotent for later look-ups (lemma).  The preselected index returned by key and backspace events is proved to be this function of (text, configuration, data, user list, learned selections).  Restart, read side: PhoneticMethod::new is proved to hold, under every option setting, exactly the store the selection file of the configuration denotes (load marker; missing or damaged file = empty store).',
         'note': COMMON_TRUST + 'Not proved: the round-trip lemma (the word part, colon mode, of a candidate p+core+t re-wrapped equals the candidate) and uniqueness-based conclusion "points at that same candidate" -- covered by the bounded check learn_recall (same context, restart, suffixed forms, punctuated first typing); serde round trip and disk atomicity are not decided.',
     },
     'C10': {
@@ -101,10 +102,10 @@ PLAN = {
     'C11': {
         'bounded': ['update_engine'], 'static': ['no_option_fields', 'context_glue'],
         'level': 'proof',
-        'units': ['pmeth', 'fixed_session'],
+        'units': ['pmeth', 'fixed_session', 'data'],
         'technique': 'Verus: update_engine re-establishes the memo invariant w.r.t. the reloaded list; methods hold no option state (all contracts are functions of the config argument)',
-        'claim': 'Proof that after update_engine the memo is transparent w.r.t. the user list then in force for every data set (so no stale candidate survives a reload or a removed file), that FixedMethod::update_engine changes nothing, and that every operation contract depends on options only through its config argument (the method structs have no option fields).',
-        'note': COMMON_TRUST + 'Layout switch and storing the new config happen in src/context.rs (pinned glue); equality of the reloaded list with what a fresh context reads depends on the file system and is not decided (mtime granularity).',
+        'claim': 'Proof that after update_engine the memo is transparent w.r.t. the user list then in force for every data set (so no stale candidate survives a reload or a removed file), that the user list afterwards is what a new context would load (file gone: empty; file newer than the copy held: its content, re-read; otherwise unchanged -- stated with load / time-stamp markers) and that PhoneticMethod::new loads it the same way, that FixedMethod::update_engine changes nothing, and that every operation contract depends on options only through its config argument (the method structs have no option fields).',
+        'note': COMMON_TRUST + 'Layout switch and storing the new config happen in src/context.rs (pinned glue); an edit that does not advance the modification time is invisible by design (mtime granularity); assumption: no existing file is dated exactly the Unix epoch (the code\'s own "no file" marker); Data::new is proved to load the three tables of the data directory whatever the options are (update_engine never reloads them); the bounded check update_engine additionally compares every ordered pair of a five-configuration family (phonetic with / without suggestions, Probhat with the number pad on / off, synthetic layout) against a new context.',
     },
     'C12': {
         'bounded': ['fixed_rules'],
@@ -127,16 +128,16 @@ PLAN = {
         'level': 'proof',
         'units': ['fixed_pkv_on', 'fixed_session'],
         'technique': 'Verus: process_key_value with the option on == transition function step_on (pending-sign state machine); termination; session/backspace clauses',
-        'claim': 'Proof that with the option on every key is exactly one step of the pending-sign state machine written from the statement (capture, carry across hasanta, re-attach, two-part fusion, destroy-or-vowelise), that the recursion terminates, that a waiting sign counts as a session and is discarded by one backspace.',
-        'note': COMMON_TRUST + 'The word-level equivalence with Unicode-order typing is proved only for the single-consonant syllable lemma so far; known finding: ra + zo-fola under a left-standing sign.',
+        'claim': 'Proof that with the option on every key is exactly one step of the pending-sign state machine written from the statement (capture, carry across hasanta, re-attach, two-part fusion, destroy-or-vowelise), that the recursion terminates, that a waiting sign counts as a session (under every setting of the other helpers) and is discarded by one backspace.',
+        'note': COMMON_TRUST + 'The word-level equivalence with Unicode-order typing is proved only for the single-consonant syllable lemma so far (bounded: fixed_rules compares typewriter-order and Unicode-order typing of syllable words); the ra + zo-fola defect found this way is repaired in /repo (known_findings.json).',
     },
     'C15': {
         'bounded': ['fixed_api'],
         'level': 'proof',
         'units': ['fixed_session'],
         'technique': 'Verus: functional postcondition list == fx_list(text, raw keys, options, data) for create_dictionary_suggestion, with lemma 1 <= len <= 9',
-        'claim': 'Proof that the fixed-method list is exactly: First(word) + dictionary matches, adjacent duplicates removed, wrapped in the (curled) punctuation, emoji added, sorted, cut to nine (eight + raw keys when English is on and the text differs from the keys), for all inputs.',
-        'note': COMMON_TRUST + 'search_dictionary (regex) is T2: assumed contract fx_dict; ordering claims conditional on std sort_unstable + total preorder; dedup removes only adjacent duplicates (data precondition on table order).',
+        'claim': 'Proof that the fixed-method list is exactly: First(word) + dictionary matches, adjacent duplicates removed, wrapped in the (curled) punctuation, emoji added, sorted, cut to nine (eight + raw keys when English is on and the text differs from the keys), for all inputs.  Statement clauses at spec level (lemma_c15_list over that function): the first candidate is the composed text with curling applied (the only First-ranked item, whatever the unstable sort does with ties), non-emoji candidates are in non-decreasing rank number (10 x distance), the raw key text is last when English is on and the text differs from the keys, between one and nine candidates.',
+        'note': COMMON_TRUST + 'search_dictionary (regex) is T2: assumed contract fx_dict (that its candidates are prefix completions, carry 10 x their edit distance and do not repeat non-adjacently is checked by the bounded check fixed_api with an independent oracle); ordering rests on one axiom about std sort_unstable (sorted permutation w.r.t. the proved comparator key; nothing assumed about ties) + data preconditions (distance <= 25, at most nine emoji per Bengali name).',
     },
     'C16': {
         'bounded': ['ansi', 'fixed_api', 'phonetic_api'],
